@@ -144,6 +144,7 @@ class CFG:
         self._dom = None
         self._pdom = None
         self._facts_cache = {}
+        self._stores = None
         self._rd_cache = {}
         a = fn.args
         self._params = {x.arg for x in a.posonlyargs + a.args + a.kwonlyargs} | \
@@ -464,7 +465,7 @@ class CFG:
         for b in self.nodes:
             if b.kind == 'branch' and b.label in (True, False) and b is not n and self.dominates(b, n):
                 _atoms(b.test, b.label, facts)
-                resolved = self.origin_expr(b, b.test)
+                resolved = self.origin_expr(b, b.test, tests=True)
                 _atoms(resolved if resolved is not None else b.test, b.label, facts.resolved)
         self._facts_cache[key] = (list(facts), list(facts.resolved))
         return facts
@@ -478,40 +479,100 @@ class CFG:
         return rd
 
     def unique_def(self, n: Node, name: str):
-        """The single plain assignment `name = <expr>` that reaches n on every path (dominates n), else None."""
+        """The single plain assignment `name = <expr>` (or `a, name = x, y`) that reaches n on every path (dominates n)."""
         defs = self._rd(name).get(n.id, set())
         if len(defs) != 1:
             return None
         d = next(iter(defs))
-        st = d.stmt
-        if d.kind != 'stmt' or not isinstance(st, (ast.Assign, ast.AnnAssign)) or d is n:
-            return None
-        if isinstance(st, ast.Assign):
-            if len(st.targets) != 1 or not isinstance(st.targets[0], ast.Name):
-                return None
-        elif not isinstance(st.target, ast.Name) or st.value is None:
+        if d.kind != 'stmt' or d is n or self.def_value(d, name) is None:
             return None
         if name in self._params or not self.dominates(d, n):
             return None
         return d
 
-    def origin_expr(self, n: Node, expr, depth=4):
+    @staticmethod
+    def def_value(d: Node, name: str):
+        """The expression bound to `name` by assignment node d (element-wise for tuple = tuple), else None."""
+        st = d.stmt
+        if isinstance(st, ast.AnnAssign):
+            return st.value if isinstance(st.target, ast.Name) and st.target.id == name else None
+        if not isinstance(st, ast.Assign) or len(st.targets) != 1:
+            return None
+        t = st.targets[0]
+        if isinstance(t, ast.Name):
+            return st.value if t.id == name else None
+        if isinstance(t, (ast.Tuple, ast.List)) and isinstance(st.value, (ast.Tuple, ast.List)) and \
+                len(t.elts) == len(st.value.elts) and not any(isinstance(x, ast.Starred) for x in t.elts + st.value.elts):
+            hits = [v for x, v in zip(t.elts, st.value.elts) if isinstance(x, ast.Name) and x.id == name]
+            # a, b = b, a style swaps read names that the same statement binds: not an alias
+            bound = {x.id for x in t.elts if isinstance(x, ast.Name)}
+            if len(hits) == 1 and not any(isinstance(y, ast.Name) and y.id in bound for v in st.value.elts for y in ast.walk(v)):
+                return hits[0]
+        return None
+
+    def canon_text(self, n: Node, expr, depth=4) -> str:
+        """Source text of expr that does not depend on how locals and private parameters are called: parameters become $N,
+        aliases of pure chains are replaced by the chain, loop variables by elem(<iterable>)."""
+        return ast.unparse(self._canon(n, expr, depth))
+
+    def _canon(self, n, expr, depth):
+        g = self
+        params = [a.arg for a in self.fn.args.posonlyargs + self.fn.args.args + self.fn.args.kwonlyargs]
+
+        class R(ast.NodeTransformer):
+            def visit_Name(self, node):  # noqa: N802
+                if not isinstance(node.ctx, ast.Load):
+                    return node
+                if node.id in params:
+                    i = params.index(node.id)
+                    return node if (i == 0 and node.id in ('self', 'cls')) else ast.Name(id=f'${i}', ctx=ast.Load())
+                if depth <= 0:
+                    return node
+                d = g.unique_def(n, node.id)
+                if d is not None:
+                    v = g.def_value(d, node.id)
+                    if _pure_chain(v):
+                        return g._canon(d, v, depth - 1)  # noqa: SLF001
+                    return node
+                defs = g._rd(node.id).get(n.id, set())  # noqa: SLF001
+                if len(defs) == 1:
+                    f = next(iter(defs))
+                    if f.kind == 'for' and g.dominates(f, n):
+                        it = g._canon(f, f.stmt.iter, depth - 1)  # noqa: SLF001
+                        tgt = f.stmt.target
+                        if isinstance(tgt, ast.Name):
+                            return ast.Call(func=ast.Name(id='elem', ctx=ast.Load()), args=[it], keywords=[])
+                        if isinstance(tgt, ast.Tuple):
+                            for i, x in enumerate(tgt.elts):
+                                if isinstance(x, ast.Name) and x.id == node.id:
+                                    return ast.Subscript(value=ast.Call(func=ast.Name(id='elem', ctx=ast.Load()), args=[it],
+                                                                        keywords=[]),
+                                                         slice=ast.Constant(value=i), ctx=ast.Load())
+                return node
+
+            def visit_Lambda(self, node):  # noqa: N802
+                return node
+        return R().visit(clone(expr))
+
+    def origin_expr(self, n: Node, expr, depth=4, tests=False):
         """expr with every local alias of a pure attribute chain replaced by that chain; None when nothing was replaced.
 
         Only `alias = name(.attr)*` bindings are followed (never calls or subscripts) and only when that binding is the one
         definition reaching n.  The result says where a value comes from, not when it was read: rules that care about the
-        time of a read must look at the defining statement itself."""
+        time of a read must look at the defining statement itself.
+        tests=True also follows names bound once to a comparison / boolean combination of pure chains and constants
+        (`changed = a.x != self.x`), provided nothing the comparison reads is assigned in this function."""
         local_names = {x.id for x in ast.walk(expr) if isinstance(x, ast.Name) and isinstance(x.ctx, ast.Load)}
         mapping = {}
         for name in local_names:
             d = self.unique_def(n, name)
             if d is None:
                 continue
-            v = d.stmt.value
-            if not _pure_chain(v):
+            v = self.def_value(d, name)
+            if not (_pure_chain(v) or (tests and _pure_test(v) and not self._assigned_in_function(v))):
                 continue
             if depth > 0:
-                v = self.origin_expr(d, v, depth - 1) or v
+                v = self.origin_expr(d, v, depth - 1, tests) or v
             mapping[name] = v
         if not mapping:
             return None
@@ -522,6 +583,16 @@ class CFG:
                     return ast.copy_location(clone(mapping[node.id]), node)
                 return node
         return R().visit(clone(expr))
+
+    def _assigned_in_function(self, e) -> bool:
+        """Is any name / attribute chain read by e a store target somewhere in this function?"""
+        if self._stores is None:
+            self._stores = set()
+            for x in ast.walk(self.fn):
+                if isinstance(x, (ast.Name, ast.Attribute)) and isinstance(x.ctx, (ast.Store, ast.Del)):
+                    self._stores.add(ast.unparse(x))
+        reads = {ast.unparse(x) for x in ast.walk(e) if isinstance(x, (ast.Name, ast.Attribute))}
+        return bool(reads & self._stores)
 
     def origin_text(self, n: Node, expr) -> str:
         r = self.origin_expr(n, expr)
@@ -682,6 +753,17 @@ def _const_truth(e):
     return None
 
 
+def _pure_test(e) -> bool:
+    """Comparison / not / and / or over pure chains and constants."""
+    if isinstance(e, ast.UnaryOp) and isinstance(e.op, ast.Not):
+        return _pure_test(e.operand)
+    if isinstance(e, ast.BoolOp):
+        return all(_pure_test(v) or _pure_chain(v) for v in e.values)
+    if isinstance(e, ast.Compare):
+        return all(_pure_chain(x) or isinstance(x, ast.Constant) for x in [e.left, *e.comparators])
+    return False
+
+
 def _pure_chain(e) -> bool:
     while isinstance(e, ast.Attribute):
         e = e.value
@@ -748,6 +830,64 @@ def _atoms(test, polarity, out):
 
 
 _cfg_cache = {}
+_expanded_cache = {}
+
+
+def _clone_with(node, repl):
+    """clone() that swaps the nodes listed in repl (id -> expression) for clones of their replacement."""
+    if isinstance(node, list):
+        return [_clone_with(x, repl) for x in node]
+    if not isinstance(node, ast.AST):
+        return node
+    r = repl.get(id(node))
+    if r is not None:
+        return ast.copy_location(clone(r), node)
+    new = type(node)()
+    for k, v in node.__dict__.items():
+        if k == '_parent':
+            continue
+        setattr(new, k, _clone_with(v, repl))
+    return new
+
+
+def expand_aliases(fi):
+    """A view of function fi in which every use of a local alias of a pure attribute chain (`states = self._mdib.states`,
+    `old, new = item.old, item.new`) is replaced by that chain - provided the alias has exactly one definition reaching the
+    use on every path.  For rules that ask WHAT is accessed (which table, which field) and not WHEN: the read of an aliased
+    attribute happens at the alias definition, which stays in the view as it is."""
+    key = id(fi.node)
+    if key in _expanded_cache:
+        return _expanded_cache[key]
+    g = cfg_of(fi)
+    repl = {}
+    for n in g.real_nodes():
+        for a in n.walk():
+            if isinstance(a, ast.Name) and isinstance(a.ctx, ast.Load) and a.id not in g._params:  # noqa: SLF001
+                d = g.unique_def(n, a.id)
+                if d is None:
+                    continue
+                v = g.def_value(d, a.id)
+                if not _pure_chain(v):
+                    continue
+                full = g.origin_expr(d, v) or v
+                # an alias of a plain local / parameter (x = y) is left alone unless it leads to an attribute chain
+                if isinstance(full, ast.Name):
+                    continue
+                repl[id(a)] = full
+    if not repl:
+        _expanded_cache[key] = fi
+        return fi
+    node = _clone_with(fi.node, repl)
+    ast.fix_missing_locations(node)
+    for x in ast.walk(node):
+        for child in ast.iter_child_nodes(x):
+            child._parent = x  # noqa: SLF001
+    node._parent = getattr(fi.node, '_parent', None)  # noqa: SLF001
+    new = type(fi)(fi.qual, fi.module, node, fi.cls)
+    new.expanded_from = fi
+    _expanded_cache[key] = new
+    _expanded_cache[id(node)] = new
+    return new
 
 
 def cfg_of(fi) -> CFG:
